@@ -7,7 +7,9 @@ HERE = pathlib.Path(__file__).resolve().parent
 # property -> (category, technique, text, note, design_ref)
 OTHER_TEXT = ('Static rule conformance: decides, for every input at once, the structural clauses named below from the shape of the current '
               'source (each is a necessary condition of the property: breaking it breaks the behaviour); it is not a proof of the whole behavioural '
-              'statement. Unrecognised constructs end the run with exit 2, never a silent pass. ')
+              'statement. Unrecognised constructs end the run with exit 2, never a silent pass. The run also applies the rule sets of the layers the '
+              'property depends on (derivation closures and class wiring, loaders, lookups: DESIGN.md §11 round 4) and the generic rules of §2 E10 '
+              '(one-shot iterables, unused parameters, signature order, memoisation/kind/raise changes against the frozen tables) to the functions it examined. ')
 NOTE = ('Trusted: the axioms about bitsets 0.8.4 / stdlib listed in every evidence file (DESIGN.md §3) and the Python semantics of the constructs a rule names; '
         'for template rules the published correctness theorem of the algorithm.')
 
